@@ -163,7 +163,9 @@ func lsAttributes() []*bgp.LsAttribute {
 		l.Link.Srv6EndXSID = &bgp.LsSrv6EndXSID{EndpointBehavior: 57, Flags: 0xe0, Algorithm: 128, Weight: 1, SIDs: []netip.Addr{a("2001:db8::1")},
 			Srv6SIDStructure: bgp.LsSrv6SIDStructure{LocalBlock: 32, LocalNode: 16, LocalFunc: 16, LocalArg: 0}}
 	})
-	one(func(l *bgp.LsAttribute) { l.Prefix.IGPFlags = &bgp.LsIGPFlags{Down: true, NoUnicast: true, LocalAddress: true, PropagateNSSA: true} })
+	one(func(l *bgp.LsAttribute) {
+		l.Prefix.IGPFlags = &bgp.LsIGPFlags{Down: true, NoUnicast: true, LocalAddress: true, PropagateNSSA: true}
+	})
 	one(func(l *bgp.LsAttribute) { l.Prefix.Opaque = b(1, 2) })
 	one(func(l *bgp.LsAttribute) { l.Prefix.SrPrefixSID = u32p(100) })
 	one(func(l *bgp.LsAttribute) {
@@ -262,7 +264,6 @@ func tunnelSubTLVs() []struct {
 	add("unknown-long-type", bgp.NewTunnelEncapSubTLVUnknown(0xff, bytesN(300, 0)))
 	return out
 }
-
 
 type pa = bgp.PathAttributeInterface
 
@@ -420,7 +421,9 @@ func AttributeBuilders() []AttrBuilder {
 	})
 	for _, t := range []bgp.PmsiTunnelType{bgp.PMSI_TUNNEL_TYPE_NO_TUNNEL, bgp.PMSI_TUNNEL_TYPE_RSVP_TE_P2MP, bgp.PMSI_TUNNEL_TYPE_MLDP_MP2MP, 0xff} {
 		plain("pmsi", fmt.Sprintf("type%d-id0", t), func() pa { return bgp.NewPathAttributePmsiTunnel(t, false, 0, bgp.NewDefaultPmsiTunnelID(nil)) })
-		plain("pmsi", fmt.Sprintf("type%d-id12", t), func() pa { return bgp.NewPathAttributePmsiTunnel(t, true, 1, bgp.NewDefaultPmsiTunnelID(bytesN(12, 1))) })
+		plain("pmsi", fmt.Sprintf("type%d-id12", t), func() pa {
+			return bgp.NewPathAttributePmsiTunnel(t, true, 1, bgp.NewDefaultPmsiTunnelID(bytesN(12, 1)))
+		})
 	}
 	plain("pmsi", "id251", func() pa { // 256 bytes of value
 		return bgp.NewPathAttributePmsiTunnel(bgp.PMSI_TUNNEL_TYPE_PIM_SM_TREE, false, 1, bgp.NewDefaultPmsiTunnelID(bytesN(251, 1)))
